@@ -79,7 +79,7 @@ pub(super) mod udp {
     use std::net::SocketAddrV4;
 
     use anyhow::anyhow;
-    use anyhow::bail;
+    use log::warn;
     use octo_squirrel::codec::DatagramPacket;
     use octo_squirrel::codec::aead::CipherKind;
     use octo_squirrel::codec::shadowsocks::udp::AEADCipherCodec;
@@ -127,10 +127,10 @@ pub(super) mod udp {
         let outbound = UdpSocket::bind(SocketAddrV4::new(Ipv4Addr::UNSPECIFIED, 0)).await?;
         let outbound_framed = UdpFramed::new(
             outbound,
-            DatagramPacketCodec::new(SessionCodec::new(
-                Context::new(Mode::Client, None, client.key, client.identity_keys),
-                AEADCipherCodec::new(client.kind),
-            )),
+            DatagramPacketCodec::new(
+                SessionCodec::new(Context::new(Mode::Client, None, client.key, client.identity_keys), AEADCipherCodec::new(client.kind)),
+                client.kind.is_aead_2022(),
+            ),
         );
         Ok(outbound_framed)
     }
@@ -153,11 +153,13 @@ pub(super) mod udp {
         codec: SessionCodec<'a, N>,
         session: Session<N>,
         filter: PacketWindowFilter,
+        /// only the 2022 edition numbers its packets
+        replay_protected: bool,
     }
 
     impl<const N: usize> DatagramPacketCodec<'_, N> {
-        pub fn new(codec: SessionCodec<N>) -> DatagramPacketCodec<'_, N> {
-            DatagramPacketCodec { codec, session: Session::from(Mode::Client), filter: PacketWindowFilter::default() }
+        pub fn new(codec: SessionCodec<N>, replay_protected: bool) -> DatagramPacketCodec<'_, N> {
+            DatagramPacketCodec { codec, session: Session::from(Mode::Client), filter: PacketWindowFilter::default(), replay_protected }
         }
     }
 
@@ -181,8 +183,10 @@ pub(super) mod udp {
             } else {
                 match self.codec.decode(src)? {
                     Some((content, addr, session)) => {
-                        if !self.filter.validate_packet_id(session.packet_id, u64::MAX) {
-                            bail!("[udp] packet_id out of window; session={}", session)
+                        if self.replay_protected && !self.filter.validate_packet_id(session.packet_id, u64::MAX) {
+                            // a duplicate or stale packet is dropped (it has been consumed); the session goes on
+                            warn!("[udp] packet_id out of window; session={}", session);
+                            return Ok(None);
                         }
                         self.session.server_session_id = session.server_session_id;
                         Ok(Some((content, addr)))
